@@ -478,12 +478,15 @@ static void uv__signal_event(uv_loop_t* loop,
       if (msg->signum == handle->signum) {
         assert(!(handle->flags & UV_HANDLE_CLOSING));
         handle->signal_cb(handle, handle->signum);
+
+        /* Only a signal the handle was watching ends a one-shot watch; a stale
+         * message from before a restart on another signal must not stop it.
+         */
+        if (handle->flags & UV_SIGNAL_ONE_SHOT)
+          uv__signal_stop(handle);
       }
 
       handle->dispatched_signals++;
-
-      if (handle->flags & UV_SIGNAL_ONE_SHOT)
-        uv__signal_stop(handle);
     }
 
     bytes -= end;
